@@ -661,7 +661,7 @@ func main() {
 	if p := os.Getenv("VERIF_REPLAY"); p != "" {
 		replay(p)
 	}
-	r := ev.Start("C03", "exploration", 150*time.Second, 28*time.Minute)
+	r := ev.Start("C03", "exploration", 4*time.Minute, 40*time.Minute)
 	maxN := ev.Pick(r, 2, 4)
 	formats := allFormats()
 	if only := os.Getenv("C03_ONLY"); only != "" { // development aid: restrict to some formats
